@@ -134,6 +134,7 @@ func (x *Exec) openFile(st *State, cc *ssa.CallCommon, path, flags string, kind 
 	st.ghost["fh:flags:"+h] = TV{SInt, flags}
 	st.ghost["fh:pos:"+h] = TV{SInt, "0"}
 	file := IfaceV{Sym: h, Static: res.At(0).Type()}
+	x.markFailed(bad, "open")
 	return []Outcome{{bad, TupleV{x.zeroVal(bad, res.At(0).Type()), x.freshErr(bad, "openerr")}}, {st, TupleV{file, nilErr()}}}
 }
 
@@ -191,6 +192,7 @@ func init() {
 		}
 		x.traceAdd(st, evClose, p.(TV).E, "0", sEmpty(SSeqI))
 		bad := st.fork()
+		x.markFailed(bad, "close")
 		return []Outcome{{bad, x.freshErr(bad, "closeerr")}, {st, nilErr()}}
 	}
 	ifaceMethods["Stat"] = func(x *Exec, st *State, fr *Frame, cc *ssa.CallCommon, iv IfaceV, args []Val, instr ssa.Instruction) []Outcome {
@@ -206,6 +208,7 @@ func init() {
 		store, _ := x.storeGet(st)
 		viewDecl(x)
 		st.assume(tEq(app("g_size", info), sLen(SSeqI, app("select", store, p.(TV).E))))
+		x.markFailed(bad, "stat")
 		return []Outcome{{bad, TupleV{x.zeroVal(bad, res.At(0).Type()), x.freshErr(bad, "staterr")}}, {st, TupleV{IfaceV{Sym: info, Static: res.At(0).Type()}, nilErr()}}}
 	}
 	// Write on a file handle: positional write into the store
@@ -222,12 +225,14 @@ func init() {
 		bad := st.fork()
 		n := bad.fresh("wn", SInt)
 		bad.assume(tAnd(tCmp("<=", "0", n), tCmp("<=", n, sLen(SSeqI, buf))))
+		x.markFailed(bad, "write")
 		outs = append(outs, Outcome{bad, TupleV{TV{SInt, n}, x.freshErr(bad, "werr")}})
 		if x.faulty {
 			// a short write that reports no error
 			sh := st.fork()
 			m := sh.fresh("wn", SInt)
 			sh.assume(tAnd(tCmp("<=", "0", m), tCmp("<", m, sLen(SSeqI, buf))))
+			x.markFailed(sh, "write")
 			outs = append(outs, Outcome{sh, TupleV{TV{SInt, m}, nilErr()}})
 		}
 		store, _ := x.storeGet(st)
@@ -323,5 +328,34 @@ func init() {
 			return SV{V: TV{SBool, flagSet(e.term(args[0]), n.Int64())}}
 		}
 		return e.fail("hasflag needs a constant bit")
+	}
+}
+
+// markFailed records that a caller-supplied dependency failed on this path (C15).
+var failKinds = []string{"sign", "open", "stat", "read", "write", "close"}
+
+func (x *Exec) markFailed(st *State, kind string) {
+	st.ghost["failed:"+kind] = TV{SBool, "true"}
+	st.ghost["failed:any"] = TV{SBool, "true"}
+}
+
+func init() {
+	specFuncs["anyFailed"] = func(e *specEnv, args []SV) SV {
+		if v, ok := e.st.ghost["failed:any"]; ok {
+			return SV{V: v.(TV)}
+		}
+		return SV{V: TV{SBool, "false"}}
+	}
+	// failed("sign"|"open"|"stat"|"read"|"write"|"close")
+	specFuncs["failed"] = func(e *specEnv, args []SV) SV {
+		for _, lit := range e.x.w.strOrder {
+			if e.x.w.strLits[lit] == e.term(args[0]) {
+				if v, ok := e.st.ghost["failed:"+lit]; ok {
+					return SV{V: v.(TV)}
+				}
+				return SV{V: TV{SBool, "false"}}
+			}
+		}
+		return e.fail("failed() needs a string literal")
 	}
 }
